@@ -280,6 +280,10 @@ impl<'a> Gen<'a> {
             }
             10..=11 => Stmt::Do(op("remove", vec![t, imm(self.index(len))])),
             12..=13 => {
+                if self.rng.chance(1, 8) {
+                    // `l.extend l` doubles the list (fix 515abf4)
+                    return Some(Stmt::Do(op("extend", vec![t.clone(), t])));
+                }
                 if !other_lists.is_empty() && self.rng.chance(2, 3) {
                     let q = *self.rng.pick(&other_lists);
                     // the source's elements are copied into the target
@@ -320,6 +324,10 @@ impl<'a> Gen<'a> {
                 }
             }
             23 => {
+                if self.rng.chance(1, 6) {
+                    // swapping a list with itself is a no-op (fix 515abf4)
+                    return Some(Stmt::Do(op("swap", vec![t.clone(), t])));
+                }
                 let q = *pick_opt(self.rng, &other_lists)?;
                 let V::Ref(o) = &q.v else { return None };
                 let Some(Obj::List(ys)) = d.objs.get(o) else { return None };
@@ -398,6 +406,9 @@ impl<'a> Gen<'a> {
                 Stmt::Do(op("update", vec![t, imm(k), stored(self)]))
             }
             13..=14 => {
+                if self.rng.chance(1, 6) {
+                    return Some(Stmt::Do(op("extend", vec![t.clone(), t])));
+                }
                 let q = *pick_opt(self.rng, &other_maps)?;
                 let V::Ref(o) = &q.v else { return None };
                 let Some(Obj::Map(ys)) = d.objs.get(o) else { return None };
